@@ -1,11 +1,13 @@
 use crate::{LonelyBlockHash, UnverifiedBlock, delete_unverified_block};
 use ckb_channel::{Receiver, Sender};
+use ckb_db_schema::COLUMN_BLOCK_HEADER;
 use ckb_error::InternalErrorKind;
 use ckb_logger::{debug, info};
 use ckb_shared::Shared;
 use ckb_shared::block_status::BlockStatus;
 use ckb_store::ChainStore;
 use ckb_types::packed::Byte32;
+use ckb_types::prelude::Entity;
 use crossbeam::select;
 use dashmap::DashSet;
 use std::sync::Arc;
@@ -131,8 +133,18 @@ impl PreloadUnverifiedBlocksChannel {
         let _trace_timecost = ckb_metrics::handle()
             .map(|metrics| metrics.ckb_chain_load_full_unverified_block.start_timer());
 
-        // one consistent view: the block may be deleted concurrently by the verify thread
+        // one consistent view: the block may be deleted concurrently by the verify thread.
+        // Whether the rows still exist is decided by raw reads of that view: the read caches are
+        // shared with the live store and may hold parts of a block that has just been deleted.
         let snapshot = self.shared.store().get_snapshot();
+        let stored = |hash: &Byte32| {
+            snapshot
+                .get(COLUMN_BLOCK_HEADER, hash.as_slice())
+                .is_some()
+        };
+        if !stored(&task.hash()) || !stored(&task.parent_hash()) {
+            return Err(task);
+        }
         let block_view = snapshot.get_block(&task.hash());
         let parent_header = snapshot.get_block_header(&task.parent_hash());
         let (Some(block_view), Some(parent_header)) = (block_view, parent_header) else {
